@@ -639,3 +639,21 @@ M("C06", "stringn-default-charsize-2", DT, "    def encode(cls, value: str, char
 M("C07", "stringi-lang-2-bytes", DT, 'lang = SHORT_STRING.decode(b"\\x03" + stream.read(3))', 'lang = SHORT_STRING.decode(b"\\x02" + stream.read(2))', ["D7.7"])
 M("C13", "ext-status-word-as-byte", PU, "        elif extended_status_size == 2:\n            extended_status = UINT.decode(stream)", "        elif extended_status_size == 2:\n            extended_status = USINT.decode(stream)", ["D13.8"])
 M("C14", "plc-time-epoch-1971", LX, "datetime.datetime(1970, 1, 1) + datetime.timedelta(", "datetime.datetime(1971, 1, 1) + datetime.timedelta(", ["D14.7"])
+# ------------------------------------------------------------------ D5.13 / Dn.I / D2.10 extension
+M("C05", "template-name-takes-any-first", LX, '                if template_name is None and ";" in name:', '                if template_name is None or ";" in name:', ["D5.13"])
+M("C05", "udt-range-upper-exclusive", LX, "        predefine = _type < 0x100 or _type > 0xEFF", "        predefine = _type < 0x100 or _type >= 0xEFF", ["D5.13"])
+M("C05", "predefined-name-second", LX, "            template_name = member_names.pop(0)", "            template_name = member_names.pop(1)", ["D5.13"])
+M("C05", "ascii82-not-renamed", LX, '        if template_name == "ASCIISTRING82":', '        if template_name == "ASCIISTRING80":', ["D5.13"])
+M("C05", "unnamed-members-collide", LX, "                _unk_member_count += 1\n", "", ["D5.13"])
+M("C05", "member-records-not-kept", LX, '            data_type["internal_tags"][member] = info\n', "", ["D5.13", "D5.7"])
+M("C05", "string-length-not-recorded", LX, '            data_type["string"] = data_type["internal_tags"]["DATA"]["array"]\n', "", ["D5.13"])
+T("C05", "template-name-partition", LX, '                    template_name, _ = name.split(";", maxsplit=1)', '                    template_name = name.partition(";")[0]')
+T("C05", "udt-range-chained", LX, "        predefine = _type < 0x100 or _type > 0xEFF", "        predefine = not (0x100 <= _type <= 0xEFF)")
+M("C01", "read-response-no-super-init", PL, "        self.value = None\n        self.data_type = None\n        super().__init__(request, raw_data)\n\n    def _parse_reply(self, dont_parse: bool = False):",
+  "        self.value = None\n        self.data_type = None\n\n    def _parse_reply(self, dont_parse: bool = False):", ["D1.I"])
+M("C01", "read-response-value-uninitialised", PL, "        self.value = None\n        self.data_type = None\n        super().__init__(request, raw_data)\n\n    def _parse_reply(self, dont_parse: bool = False):",
+  "        super().__init__(request, raw_data)\n\n    def _parse_reply(self, dont_parse: bool = False):", ["D1.I"])
+M("C02", "write-request-value-behind-branch", PL, "        self.value = request.value\n        self.data_type = request.data_type\n        super().__init__(request, raw_data)",
+  "        if raw_data:\n            self.value = request.value\n        self.data_type = request.data_type\n        super().__init__(request, raw_data)", ["D2.I"])
+M("C13", "response-tag-info-after-super", PL, "        self.tag_info = request.tag_info\n        super().__init__(request, raw_data)\n", "        super().__init__(request, raw_data)\n        self.tag_info = request.tag_info\n", ["D13.I", "D1.I"])
+T("C01", "fragment-response-redundant-init-removed", PL, "        self.value = None\n        self._data_type = None\n        self.value_bytes = None\n", "        self._data_type = None\n        self.value_bytes = None\n")
